@@ -1,7 +1,9 @@
-// Package stime mirrors the clock-reading and timer functions of package time.
+// Package stime mirrors the clock-reading, timer and deadline functions of packages time and context.
 package stime
 
 import (
+	"context"
+	"sync"
 	"time"
 
 	"verif/sim/simrt"
@@ -25,13 +27,241 @@ func Sleep(d time.Duration) {
 	time.Sleep(d)
 }
 
+// Timer mirrors time.Timer. Under simulation it fires when the simulated clock reaches its time.
+type Timer struct {
+	C    <-chan time.Time
+	c    chan time.Time
+	s    *simrt.Sim
+	h    *simrt.TimerH
+	f    func()
+	node int
+	real *time.Timer
+}
+
+func (t *Timer) arm(d time.Duration) {
+	s := t.s
+	if t.f != nil {
+		f, node := t.f, t.node
+		t.h = s.AddTimer(d, func() { t.h = nil; s.GoFromTimer("afterfunc", node, f) })
+		return
+	}
+	t.h = s.AddTimer(d, func() { t.h = nil; simrt.Offer(s, t.c, s.Global().Add(0)) })
+}
+
+// NewTimer mirrors time.NewTimer.
+func NewTimer(d time.Duration) *Timer {
+	s := simrt.S()
+	if s == nil {
+		r := time.NewTimer(d)
+		return &Timer{C: r.C, real: r}
+	}
+	c := make(chan time.Time, 1)
+	t := &Timer{C: c, c: c, s: s}
+	t.arm(d)
+	return t
+}
+
 // AfterFunc under simulation runs f as a new task once the simulated clock reaches now+d.
-// The returned timer cannot be stopped under simulation (the instrumenter rejects uses of the result).
-func AfterFunc(d time.Duration, f func()) *time.Timer {
-	if s := simrt.S(); s != nil {
-		cur := s.Cur()
-		s.AddTimer(d, func() { s.GoFromTimer("afterfunc", cur.Node, f) })
+func AfterFunc(d time.Duration, f func()) *Timer {
+	s := simrt.S()
+	if s == nil {
+		return &Timer{real: time.AfterFunc(d, f)}
+	}
+	t := &Timer{s: s, f: f, node: s.Cur().Node}
+	t.arm(d)
+	return t
+}
+
+// Stop mirrors (*time.Timer).Stop (Go 1.23 semantics: no stale value is left in C).
+func (t *Timer) Stop() bool {
+	if t.real != nil {
+		return t.real.Stop()
+	}
+	active := t.h.Cancel()
+	t.h = nil
+	if t.c != nil {
+		simrt.Drain(t.s, t.c)
+	}
+	return active
+}
+
+// Reset mirrors (*time.Timer).Reset.
+func (t *Timer) Reset(d time.Duration) bool {
+	if t.real != nil {
+		return t.real.Reset(d)
+	}
+	active := t.Stop()
+	t.arm(d)
+	return active
+}
+
+// After mirrors time.After.
+func After(d time.Duration) <-chan time.Time { return NewTimer(d).C }
+
+// Ticker mirrors time.Ticker.
+type Ticker struct {
+	C    <-chan time.Time
+	c    chan time.Time
+	s    *simrt.Sim
+	h    *simrt.TimerH
+	d    time.Duration
+	real *time.Ticker
+}
+
+func (t *Ticker) arm() {
+	s := t.s
+	t.h = s.AddTimer(t.d, func() {
+		simrt.Offer(s, t.c, s.Global())
+		t.arm()
+	})
+}
+
+// NewTicker mirrors time.NewTicker.
+func NewTicker(d time.Duration) *Ticker {
+	if d <= 0 {
+		panic("non-positive interval for NewTicker")
+	}
+	s := simrt.S()
+	if s == nil {
+		r := time.NewTicker(d)
+		return &Ticker{C: r.C, real: r}
+	}
+	c := make(chan time.Time, 1)
+	t := &Ticker{C: c, c: c, s: s, d: d}
+	t.arm()
+	return t
+}
+
+func (t *Ticker) Stop() {
+	if t.real != nil {
+		t.real.Stop()
+		return
+	}
+	t.h.Cancel()
+	t.h = nil
+}
+
+func (t *Ticker) Reset(d time.Duration) {
+	if t.real != nil {
+		t.real.Reset(d)
+		return
+	}
+	t.Stop()
+	t.d = d
+	t.arm()
+}
+
+// Tick mirrors time.Tick.
+func Tick(d time.Duration) <-chan time.Time {
+	if d <= 0 {
 		return nil
 	}
-	return time.AfterFunc(d, f)
+	return NewTicker(d).C
+}
+
+// ---- deadlines ----
+
+// deadlineCtx is a context whose deadline is a simulated timer. It offers AfterFunc, so contexts
+// derived from it by package context are cancelled synchronously (no watcher goroutine); its own
+// parent is watched by a poller that runs inside the scheduler.
+type deadlineCtx struct {
+	context.Context // the parent, for Value
+	deadline        time.Time
+	mu              sync.Mutex
+	done            chan struct{}
+	err             error
+	after           []*func()
+	h               *simrt.TimerH
+}
+
+func (c *deadlineCtx) Deadline() (time.Time, bool) { return c.deadline, true }
+func (c *deadlineCtx) Done() <-chan struct{}       { return c.done }
+func (c *deadlineCtx) Err() error {
+	c.mu.Lock()
+	defer c.mu.Unlock()
+	return c.err
+}
+
+// AfterFunc is what package context calls to propagate cancellation to children.
+func (c *deadlineCtx) AfterFunc(f func()) func() bool {
+	c.mu.Lock()
+	if c.err != nil {
+		c.mu.Unlock()
+		f()
+		return func() bool { return false }
+	}
+	pf := &f
+	c.after = append(c.after, pf)
+	c.mu.Unlock()
+	return func() bool {
+		c.mu.Lock()
+		defer c.mu.Unlock()
+		for i, g := range c.after {
+			if g == pf {
+				c.after = append(c.after[:i], c.after[i+1:]...)
+				return true
+			}
+		}
+		return false
+	}
+}
+
+func (c *deadlineCtx) cancel(err error) {
+	c.mu.Lock()
+	if c.err != nil {
+		c.mu.Unlock()
+		return
+	}
+	c.err = err
+	close(c.done) // a real close: every simulated receive on Done polls the real channel
+	after := c.after
+	c.after = nil
+	c.mu.Unlock()
+	c.h.Cancel()
+	for _, f := range after {
+		(*f)()
+	}
+}
+
+// WithDeadline mirrors context.WithDeadline on the simulated clock.
+func WithDeadline(parent context.Context, d time.Time) (context.Context, context.CancelFunc) {
+	s := simrt.S()
+	if s == nil {
+		return context.WithDeadline(parent, d)
+	}
+	if cur, ok := parent.Deadline(); ok && cur.Before(d) {
+		return context.WithCancel(parent)
+	}
+	c := &deadlineCtx{Context: parent, deadline: d, done: make(chan struct{})}
+	if err := parent.Err(); err != nil {
+		c.cancel(err)
+		return c, func() {}
+	}
+	dur := d.Sub(s.Now())
+	if dur <= 0 {
+		c.cancel(context.DeadlineExceeded)
+		return c, func() {}
+	}
+	c.h = s.AddTimer(dur, func() { c.cancel(context.DeadlineExceeded) })
+	if parent.Done() != nil {
+		s.AddPoller(func() bool {
+			if c.Err() != nil {
+				return false
+			}
+			if err := parent.Err(); err != nil {
+				c.cancel(err)
+				return false
+			}
+			return true
+		})
+	}
+	return c, func() { c.cancel(context.Canceled) }
+}
+
+// WithTimeout mirrors context.WithTimeout on the simulated clock.
+func WithTimeout(parent context.Context, d time.Duration) (context.Context, context.CancelFunc) {
+	if simrt.S() == nil {
+		return context.WithTimeout(parent, d)
+	}
+	return WithDeadline(parent, Now().Add(d))
 }
